@@ -13,6 +13,7 @@ skeleton => not comparable (ANALYSIS-ERROR, never a silent pass).
 from __future__ import annotations
 
 import ast
+import re
 import textwrap
 from pathlib import Path
 
@@ -219,6 +220,18 @@ def _scale_diffcov_1d(data):
     diff = np.diff(data)
     cov = np.cov(diff[:-1], diff[1:])
     return np.sqrt(np.abs(cov[0, 1]))
+''',
+    # C09: the one dispersion law.  delay(f) = K * DM * (f^-2 - fref^-2), in samples rounded to nearest then int32; the DM axis is
+    # broadcast against the channel axis and only the axis of a scalar DM is dropped (one channel stays a 1-D array).
+    "compute_dmdelays": '''
+def compute_dmdelays(freqs, dm, tsamp, ref_freq, in_samples=True):
+    freqs = np.atleast_1d(freqs).astype(np.float32)
+    scalar_dm = np.ndim(dm) == 0
+    dm = np.atleast_1d(dm)[:, np.newaxis].astype(np.float32)
+    delays = dm * DM_CONSTANT_LK * ((freqs**-2) - (ref_freq**-2))
+    if in_samples:
+        delays = (delays / tsamp).round().astype(np.int32)
+    return delays[0] if scalar_dm else delays
 ''',
     "estimate_zscore": '''
 def estimate_zscore(data, loc_method="median", scale_method="mad", axis=0):
@@ -1626,6 +1639,172 @@ def _extends_call(act_txt: str, ref_txt: str) -> bool:
     return all(k.arg in akw and akw[k.arg] == ast.dump(k.value) for k in r.keywords)
 
 
+def _split_commas(t: str) -> list[str]:
+    out, depth, cur, quote = [], 0, "", None
+    for ch in t:
+        if quote:
+            cur += ch
+            if ch == quote:
+                quote = None
+            continue
+        if ch in "'\"":
+            quote = ch
+        elif ch in "([{":
+            depth += 1
+        elif ch in ")]}":
+            depth -= 1
+        if ch == "," and depth == 0:
+            out.append(cur.strip())
+            cur = ""
+        else:
+            cur += ch
+    if cur.strip():
+        out.append(cur.strip())
+    return out
+
+
+def _outer_parens(t: str) -> bool:
+    """t is `( ... )` with the first parenthesis closing at the very end."""
+    if not (t.startswith("(") and t.endswith(")")):
+        return False
+    depth = 0
+    for i, ch in enumerate(t):
+        if ch == "(":
+            depth += 1
+        elif ch == ")":
+            depth -= 1
+            if depth == 0:
+                return i == len(t) - 1
+    return False
+
+
+def _parse_guard(text: str):
+    """('atom', t) | ('not', sub) | ('and' | 'or', [sub, ...]) of a condition in the control-flow normal form's text:
+    `(A) and (B)`, `(A) or (B)`, `not (A)`, `any([A, B])`, `all([A, B])`; `a <= b` is read as `not (b < a)`."""
+    t = text.strip()
+    if _outer_parens(t):
+        inner = _parse_guard(t[1:-1])
+        if inner[0] != "atom" or not t[1:-1].strip().startswith("("):
+            return inner
+    if t.startswith("not ") :
+        return ("not", _parse_guard(t[4:]))
+    for fn_, op_ in (("any([", "or"), ("all([", "and")):
+        if t.startswith(fn_) and t.endswith("])"):
+            items = _split_commas(t[len(fn_):-2])
+            if items:
+                return (op_, [_parse_guard(x) for x in items])
+    m = re.fullmatch(r"cmp\[LtE\]\((.*)\)", t)
+    if m:
+        ab = _split_commas(m.group(1))
+        if len(ab) == 2:
+            return ("not", ("atom", f"cmp[Lt]({ab[1]}, {ab[0]})"))
+    if not t.startswith("("):
+        return ("atom", t)
+    parts, ops = [], []
+    i = 0
+    while i < len(t):
+        if t[i] != "(":
+            return ("atom", t)
+        depth, j = 0, i
+        while j < len(t):
+            if t[j] == "(":
+                depth += 1
+            elif t[j] == ")":
+                depth -= 1
+                if depth == 0:
+                    break
+            j += 1
+        if j >= len(t):
+            return ("atom", t)
+        parts.append(t[i + 1:j])
+        rest = t[j + 1:]
+        if rest == "":
+            break
+        if rest.startswith(" and ("):
+            ops.append("and")
+            i = j + 1 + len(" and ")
+        elif rest.startswith(" or ("):
+            ops.append("or")
+            i = j + 1 + len(" or ")
+        else:
+            return ("atom", t)
+    if len(parts) >= 2 and len(set(ops)) == 1 and len(parts) == len(ops) + 1:
+        return (ops[0], [_parse_guard(p_) for p_ in parts])
+    return ("atom", t)
+
+
+def _guard_atoms(f, out: set) -> None:
+    if f[0] == "atom":
+        out.add(f[1])
+    elif f[0] == "not":
+        _guard_atoms(f[1], out)
+    else:
+        for x in f[1]:
+            _guard_atoms(x, out)
+
+
+def _guard_eval(f, alpha: dict) -> bool:
+    if f[0] == "atom":
+        return alpha[f[1]]
+    if f[0] == "not":
+        return not _guard_eval(f[1], alpha)
+    vals = [_guard_eval(x, alpha) for x in f[1]]
+    return all(vals) if f[0] == "and" else any(vals)
+
+
+def _same_guarded_effects(act_facts, ref_facts, limit: int = 10):
+    """-> (equal?, assignments, atoms) or None when not decidable this way (loop-carried facts, too many conditions).
+    For every truth assignment of the atomic conditions both sides must execute the same effects; where both raise, what
+    they return is not compared (a function does not return on a path that raises)."""
+    def split(fact):
+        kind = fact[0]
+        if kind == "set":
+            payload, ctx = (kind, fact[1], fact[2], fact[3]), fact[4]
+        elif kind in ("ret", "expr", "stmt"):
+            payload, ctx = (kind, fact[1]), fact[2]
+        elif kind == "raise":
+            payload, ctx = (kind,), fact[1]
+        else:
+            payload, ctx = (kind,), fact[1]
+        conds = []
+        for c in ctx:
+            pol, _, rest = c.partition(" ")
+            if pol not in ("if", "ifnot"):
+                conds.append((True, ("atom", c)))      # a loop marker: an opaque condition of its own
+                continue
+            conds.append((pol == "if", _parse_guard(rest)))
+        return payload, conds
+    sides = []
+    atoms: set = set()
+    for facts in (act_facts, ref_facts):
+        lst = []
+        for f in facts:
+            sp = split(f)
+            if sp is None:
+                return None
+            lst.append(sp)
+            for _, g in sp[1]:
+                _guard_atoms(g, atoms)
+        sides.append(lst)
+    atoms_l = sorted(atoms)
+    if not atoms_l or len(atoms_l) > limit:
+        return None
+    n = 0
+    for bits in range(1 << len(atoms_l)):
+        alpha = {a: bool(bits >> i & 1) for i, a in enumerate(atoms_l)}
+        ex = []
+        for lst in sides:
+            ex.append({payload for payload, conds in lst if all(_guard_eval(g, alpha) == pol for pol, g in conds)})
+        a_, r_ = ex
+        if ("raise",) in a_ and ("raise",) in r_:
+            a_ = {x for x in a_ if x[0] != "ret"}
+            r_ = {x for x in r_ if x[0] != "ret"}
+        n += 1
+        if a_ != r_:
+            return (False, n, len(atoms_l))
+    return (True, n, len(atoms_l))
+
+
 def _compare_with(fn: FuncInfo, name: str, ref: "Signature") -> tuple[str, list[str]]:
     try:
         act = Signature(fn.node, ref.params, owner_cls=getattr(fn, "cls", None))
@@ -1634,6 +1813,7 @@ def _compare_with(fn: FuncInfo, name: str, ref: "Signature") -> tuple[str, list[
     def shape(sk):
         return sorted(tuple("if" if x.startswith("if") else "W" if x.startswith("while") else "L" for x in t) for t in sk)
 
+    ref0 = ref
     tolerated = _tolerate_domain_guards(act, ref)
     widened = _tolerate_domain_guards(ref_copy := _copy_sig(ref), act)
     if widened:
@@ -1682,6 +1862,14 @@ def _compare_with(fn: FuncInfo, name: str, ref: "Signature") -> tuple[str, list[
         if len(pairs) == len(lacking) and len({id(p[0]) for p in pairs}) == len(pairs):
             return "same", [f"{len(ref.facts)} effects equal to the reference definition; the returned record carries additional field(s) after the "
                             f"definition's ({pairs[0][0][1][:80]})"]
+    # the same effects under differently *written* guards (a guard split, merged, moved in front, De Morgan, an early return
+    # instead of an else): compare, for every truth assignment of the atomic conditions, which effects execute
+    eq = _same_guarded_effects(act.facts, ref.facts)
+    if (eq is None or not eq[0]) and ref0 is not ref:
+        eq = _same_guarded_effects(act.facts, {f for f in ref0.facts if not _is_log(f)})
+    if eq is not None and eq[0]:
+        return "same", [f"{len(ref.facts)} effects; equal to the reference definition as guarded effects (decided over all {eq[1]} truth assignments of "
+                        f"{eq[2]} atomic conditions)"] + ([f"(additional domain guards that only reject invalid input: {tolerated})"] if tolerated else [])
     extra = sorted(map(str, act.facts - ref.facts))
     missing = sorted(map(str, ref.facts - act.facts))
     return "different", [f"kernel has: {e}" for e in extra[:4]] + [f"definition needs: {m}" for m in missing[:4]]
